@@ -62,6 +62,11 @@ func dist(a, b geom.Point) float64 { return math.Hypot(a.X-b.X, a.Y-b.Y) }
 func genCurve(r *gen.R, n int) ([]geom.Point, string) {
 	scale := math.Pow(10, r.Range(-2, 3))
 	ox, oy := r.Range(-10, 10)*scale, r.Range(-10, 10)*scale
+	if r.Chance(0.25) {
+		// metre-sized features in degrees: vertex spacing 1e-7 .. 1e-3 at a lon/lat position
+		scale = math.Pow(10, r.Range(-6.5, -3))
+		ox, oy = r.Range(-180, 180), r.Range(-85, 85)
+	}
 	pts := make([]geom.Point, 0, n)
 	shape := []string{"simple_walk", "simple_walk", "monotone", "zigzag", "spiral", "hook", "hook", "collinear", "random", "wedge"}[r.Intn(10)]
 	crosses := func(a, b geom.Point) bool {
@@ -294,6 +299,13 @@ func runBoxwalk(c *core.Ctx, idx int) {
 	n := r.IntRange(6, 40)
 	scale := math.Pow(10, r.Range(-1, 2))
 	ox, oy := r.Range(-5, 5)*scale, r.Range(-5, 5)*scale
+	if r.Chance(0.4) {
+		// metre-sized features in degrees (box of 1e-6 .. 1e-3 at a lon/lat position): absolute
+		// thresholds inside the intersection tests then bite
+		scale = math.Pow(10, r.Range(-6, -3))
+		ox, oy = r.Range(-180, 180), r.Range(-85, 85)
+		c.Count("boxwalk.degree_scale")
+	}
 	tail := r.Chance(0.6)
 	pts := make([]geom.Point, 0, n)
 	for len(pts) < n {
